@@ -1083,7 +1083,7 @@ def cli_tie(ctx, res, drv, x, thorough):
         plats = [byname[n] for n in ("unix64", "win64", "unix32") if n in byname]
         extra = [p for p in allp if p.name not in ("unix64", "win64", "unix32", "native", "win32A", "win32W")]
         plats += rng.sample(extra, min(2, len(extra)))
-        per = 300
+        per = 200
     nknown, viols = 0, []
     for P in plats:
         for cpp in (False, True):
